@@ -12,8 +12,8 @@ import random
 
 ID = "C18"
 LEVEL = "fault_enumeration"
-TECHNIQUE = "fault enumeration on a virtual-time simulated network: shutdown() injected just before and just after every distinct event instant of seeded busy scenarios (requests awaiting ACK / separate response, block-wise transfer in flight, observations on both sides, NSTART backlog, pending empty-ACK timers, live dedup entries); oracle over client-boundary records, handler cancellation log, the wire after shutdown returned, the loop exception handler / unraisable hook, and a second context's own exchange. Second half over CoAP-over-TCP on an in-memory stream fabric (harness/simtcp.py: loop.create_connection / create_server replaced on the loop instance; link delay, handshake duration, a host that never completes the handshake, scripted RFC 8323 peers that hang up on Release at once / after 0.5 s / after 10 s / never and go on sending Pings, responses and requests meanwhile, a second aiocoap context as peer): shutdown() injected before / at / after every distinct instant, and in the k-th loop iteration (k = 0, 1, 2) after every life-cycle event of the victim's connections (connect, established, taken from the backlog, protocol created, connection_made, close, EOF, lost; a new peer connects every 0.65 s), of busy scenarios (requests awaiting a response, waiting for a connection being set up or for a handshake that never ends, block-wise transfer in flight, observations on both sides, handlers running, connections being accepted, frames in flight in both directions, requests born in the step of the shutdown, a request given up by the application in that step - in two scenarios out of three the one whose connection is being set up or has just come up, submitted through the block-wise API whose per-request task is cancelled with it); oracle over request outcomes, every byte written / connection opened or accepted after shutdown() returned, the close state of every stream transport 200 s later, the tasks shutdown() started and all tasks left at the end (task factory), exceptions leaving data_received, requests submitted afterwards (over a pooled connection, to a new host, to the host that does not answer, to the aiocoap peer, by the remote of an earlier response), and the second context's own TCP exchange compared with the run without shutdown"
-LEVEL_TEXT = "For each seeded busy scenario every distinct event instant is used as a shutdown point twice (t-0.1ms, t+0.1ms); each run must show: all pending requests/observations failed with a library error and handlers cancelled within SHUTDOWN_TIMEOUT, shutdown() returned, silence and no loop exception afterwards, later requests failing at once with LibraryShutdown, and the second context unaffected. Over TCP every distinct instant of each seeded scenario is used two or three times (t-0.1ms, t itself for every fourth instant in the quick tier and for all in the thorough tier, t+0.1ms); and every life-cycle event of the victim's connection ends is used with k = 0 (all), 1 and 2 (quick tier: only for connections being accepted) loop iterations between the event and the call; each run must show the same, plus: shutdown() does not raise, the tasks that shutdown() started are finished when it returns, no byte is written and no connection opened or accepted after it returned, every stream transport of the context is closed 200 s later, no library task is left, nothing raises out of data_received."
+TECHNIQUE = "fault enumeration on a virtual-time simulated network: shutdown() injected just before and just after every distinct event instant of seeded busy scenarios (requests awaiting ACK / separate response, block-wise transfer in flight, observations on both sides, NSTART backlog, pending empty-ACK timers, live dedup entries, requests whose host name is still being resolved - the resolver of the simulated network takes 1 s for one name and 8 s for another, such requests are submitted 0.25 s before the shutdown and again after it has returned); oracle over client-boundary records, handler cancellation log, the wire after shutdown returned, the loop exception handler / unraisable hook, and a second context's own exchange. Second half over CoAP-over-TCP on an in-memory stream fabric (harness/simtcp.py: loop.create_connection / create_server replaced on the loop instance; link delay, handshake duration, a host that never completes the handshake, scripted RFC 8323 peers that hang up on Release at once / after 0.5 s / after 10 s / never and go on sending Pings, responses and requests meanwhile, a second aiocoap context as peer; in one scenario out of three a peer of the server side that asks for a large representation eight times and never reads, so that its connection clogs, close() on it cannot complete and the server transport's shutdown stalls until the time-out while the client transport has its own work pending): shutdown() injected before / at / after every distinct instant, and in the k-th loop iteration (k = 0, 1, 2) after every life-cycle event of the victim's connections (connect, established, taken from the backlog, protocol created, connection_made, close, EOF, lost; a new peer connects every 0.65 s), of busy scenarios (requests awaiting a response, waiting for a connection being set up or for a handshake that never ends, block-wise transfer in flight, observations on both sides, handlers running, connections being accepted, frames in flight in both directions, requests born in the step of the shutdown, a request given up by the application in that step - in two scenarios out of three the one whose connection is being set up or has just come up, submitted through the block-wise API whose per-request task is cancelled with it); oracle over request outcomes, every byte written / connection opened or accepted after shutdown() returned, the close state of every stream transport 200 s later, the tasks shutdown() started and all tasks left at the end (task factory), exceptions leaving data_received, requests submitted afterwards (over a pooled connection, to a new host, to the host that does not answer, to the aiocoap peer, by the remote of an earlier response), and the second context's own TCP exchange compared with the run without shutdown"
+LEVEL_TEXT = "For each seeded busy scenario every distinct event instant is used as a shutdown point twice (t-0.1ms, t+0.1ms); each run must show: all pending requests/observations failed with a library error and handlers cancelled within SHUTDOWN_TIMEOUT, shutdown() returned, silence and no loop exception afterwards, later requests failing at once with LibraryShutdown, and the second context unaffected. Over TCP every distinct instant of each seeded scenario is used two or three times (t-0.1ms, t itself for every fourth instant in the quick tier and for all in the thorough tier, t+0.1ms); and every life-cycle event of the victim's connection ends is used with k = 0 (all), 1 and 2 (quick tier: only for connections being accepted) loop iterations between the event and the call; each run must show the same, plus: shutdown() does not raise, the tasks that shutdown() started are finished when it returns, no byte is written and no connection opened or accepted after it returned, every stream transport of the context is closed 200 s later, no library task is left, nothing raises out of data_received. Where a connection is clogged by a peer that does not read, shutdown() giving up at the time-out and leaving the task that waits for that transport (and the half-closed connection) behind is accepted as documented; everything else is demanded unchanged and keyed with the suffix /clogged-peer."
 LEVEL_NOTE = "Trusted: determinism of the replay (same seed, PYTHONHASHSEED=0, virtual clock), simnet wire log, the judge in checks/c18.py. Instants are those of wire events and handler log entries of the baseline run. TCP half: additionally trusted are harness/simtcp.py (asyncio stream transport / Server behaviour re-implemented from CPython 3.12 selector_events.py and base_events.Server: connection_made through call_soon one loop iteration after the protocol factory ran, which on the accepting side is itself one iteration after the connection was taken from the backlog (_accept_connection / _accept_connection2), close() flushing, abort() resetting, writes after close dropped, exceptions out of data_received reported as 'Fatal error' and force-closing, wait_closed() waiting for the accepted connections) and harness/reftcp.py (RFC 8323 framing); instants are those of fabric events (connect, established, accepted, write, deliver, close, lost) and handler log entries of the first 9.5 s of the baseline run; attribution of connections to contexts is by listener owner and by destination address."
 RULE = (
     "one case = one (scenario seed, shutdown instant, before/after) run. Non-trivial = at shutdown at least one request, observation, handler, backlog entry or timer of the context was pending; "
@@ -27,7 +27,7 @@ ASSUMPTIONS = [
     "TCP half: the baseline is deterministic per connection end (checked: run twice, the event sequence of every connection end must be identical; the order of events of different connections within one instant may depend on object addresses through set iteration in the library)",
 ]
 REQUIRED_MONITORS = {
-    "shutdown_returns": 200, "pending_requests_failed": 200, "handlers_cancelled": 50, "silent_after_shutdown": 200, "no_loop_exception": 200, "later_request_fails_fast": 200, "other_context_unaffected": 200, "baseline_deterministic": 1,
+    "shutdown_returns": 200, "pending_requests_failed": 200, "handlers_cancelled": 50, "silent_after_shutdown": 200, "no_loop_exception": 200, "later_request_fails_fast": 200, "other_context_unaffected": 200, "baseline_deterministic": 1, "resolving_at_shutdown": 4000,
     # CoAP over TCP (same thresholds for both tiers; the thorough tier reaches a multiple)
     "tcp_shutdown_does_not_raise": 600, "tcp_shutdown_returns": 600, "tcp_shutdown_tasks_finished": 600, "tcp_pending_requests_failed": 600, "tcp_handlers_cancelled": 800, "tcp_silent_after_shutdown": 600, "tcp_no_connect_after_shutdown": 600,
     "tcp_connections_closed": 6000, "tcp_no_loop_exception": 600, "tcp_later_request_fails_fast": 4000, "tcp_other_context_unaffected": 600, "tcp_baseline_deterministic": 1,
@@ -36,6 +36,8 @@ REQUIRED_MONITORS = {
     "tcp_handshake_in_flight_at_shutdown": 200, "tcp_connect_pending_at_shutdown": 600, "tcp_frames_in_flight_at_shutdown": 500, "tcp_frames_arriving_after_shutdown": 500, "tcp_peer_not_hanging_up": 4000, "tcp_connect_attempt_after_shutdown": 600,
     # shutdown tied to a step of a connection's life cycle; thereof: the server created the protocol object of a new connection after shutdown() was called
     "tcp_shutdown_tied_to_connection_event": 200, "tcp_accept_during_shutdown": 20, "tcp_request_cancelled_during_connection_setup": 300,
+    # the peer that never reads (one scenario in three): its connection had a write backlog when shutdown was called / close() on it was still pending when shutdown returned
+    "tcp_resolving_at_shutdown": 3000, "tcp_clogged_connection_at_shutdown": 300, "tcp_shutdown_stalled_by_clogged_peer": 300,
 }
 
 
@@ -47,6 +49,13 @@ def plan(tier, seed):
 
 
 def variant(vseed):
+    v = _variant(vseed)
+    if v["reuse_token"]:
+        v["slow"] = 2.0  # (requests come 1.3 s apart: each supersedes its predecessor while that one's handler still runs)
+    return v
+
+
+def _variant(vseed):
     r = random.Random(vseed)
     return {
         "backlog": r.randrange(1, 4),
@@ -91,6 +100,8 @@ def run(v, seed, shutdown_at):
             return None
 
         net = simnet.SimNet(loop, simnet.ScriptPolicy(fate))
+        # host names whose resolution takes a while (both are the peer that acknowledges and never answers)
+        simnet.SLOW_NAMES.update({"slow1.example": (1.0, "10.0.0.11"), "slow8.example": (8.0, "10.0.0.11")})
         X = simnet.addr("10.0.0.1", 5683)
         hlog = []
 
@@ -263,6 +274,15 @@ def run(v, seed, shutdown_at):
                 # and callbacks have not run to completion yet
                 net.inject_error(X, simnet.addr(v["icmp"][0], v["icmp"][1]), 111, delay=max(0.0, shutdown_at - v["icmp"][2]))
                 info["icmp"] = v["icmp"]
+
+            # requests whose host name is still being resolved when shutdown is called (the resolver takes 1 s: it answers
+            # after shutdown() has returned - nothing may go out then; or 8 s: longer than the shutdown time-out)
+            def resolving():
+                for name, secs in (("slow1.example", 1), ("slow8.example", 8)):
+                    for api in (False, True):
+                        track("resolving-%s-%ds" % ("blockwise" if api else "raw", secs), ctx.request(aiocoap.Message(code=aiocoap.GET, uri="coap://%s/resolving" % name), handle_blockwise=api))
+
+            loop.call_later(max(0.0, shutdown_at - 0.25), resolving)
             await asyncio.sleep(shutdown_at)
             # what is pending right now?
             tm = ctx.request_interfaces[0]
@@ -278,6 +298,7 @@ def run(v, seed, shutdown_at):
                 "observers": obsres.count,
             }
             info["unfinished_before"] = [r["name"] for r in recs if r["done"] is None]
+            info["resolving"] = sum(1 for r in recs if r["done"] is None and r["name"].startswith("resolving"))
             info["t_call"] = loop.time()
             info["log_mark"] = len(net.log)
             # requests born in the very step in which shutdown is called: their processing task has not run yet
@@ -304,16 +325,18 @@ def run(v, seed, shutdown_at):
             info["loop_exc_at_ret"] = len(loop.exceptions)
             # a request submitted after shutdown must fail at once with the shutdown error
             late = []
-            for api in (False, True):
-                rq = ctx.request(aiocoap.Message(code=aiocoap.GET, uri="coap://10.0.0.11/late"), handle_blockwise=api)
+            for api, host in ((False, "10.0.0.11"), (True, "10.0.0.11"), (False, "slow1.example"), (True, "slow1.example"), (False, "slow8.example")):
+                rq = ctx.request(aiocoap.Message(code=aiocoap.GET, uri="coap://%s/late" % host), handle_blockwise=api)
+                rq.response.add_done_callback(lambda f: f.cancelled() or f.exception())
+                kind = "resolving" if host.startswith("slow") else None
                 t0 = loop.time()
                 try:
                     await asyncio.wait_for(asyncio.shield(rq.response), 5)
-                    late.append((api, "response", loop.time() - t0))
+                    late.append((api, "response", loop.time() - t0, kind))
                 except asyncio.TimeoutError:
-                    late.append((api, "hang", loop.time() - t0))
+                    late.append((api, "hang", loop.time() - t0, kind))
                 except Exception as e:
-                    late.append((api, e, loop.time() - t0))
+                    late.append((api, e, loop.time() - t0, kind))
             info["late"] = late
             await asyncio.sleep(500.0)
         info["handlers"] = list(hlog)
@@ -425,13 +448,17 @@ def judge(v, res, box, when, rep, case, T):
         rep.violation("logging-call-failed", "a logging call inside the library raised", wit(failures=res.logging_failures[:2]), case)
     # ---- later requests fail at once with the shutdown error ----
     rep.monitor("later_request_fails_fast")
-    for api, outcome, took in info["late"]:
+    for api, outcome, took, kind in info["late"]:
+        # (kind "resolving": addressed by a host name whose resolution takes 1 s or 8 s)
+        apiname = ("%s-" % kind if kind else "") + ("blockwise" if api else "raw")
         if outcome == "hang":
-            rep.violation("later-request-hangs/%s" % ("blockwise" if api else "raw"), "a request submitted after shutdown neither completed nor failed", wit(), case)
+            rep.violation("later-request-hangs/%s" % apiname, "a request submitted after shutdown neither completed nor failed" + (" within 5 s (its host name was still being resolved)" if kind else ""), wit(), case)
         elif outcome == "response" or not isinstance(outcome, error.LibraryShutdown):
-            rep.violation("later-request-wrong-outcome/%s/%s" % ("blockwise" if api else "raw", type(outcome).__name__ if not isinstance(outcome, str) else outcome), "a request submitted after shutdown did not fail with the shutdown error", wit(outcome=repr(outcome)), case)
+            rep.violation("later-request-wrong-outcome/%s/%s" % (apiname, type(outcome).__name__ if not isinstance(outcome, str) else outcome), "a request submitted after shutdown did not fail with the shutdown error", wit(outcome=repr(outcome)), case)
         elif took > 1e-6:
-            rep.violation("later-request-fails-late", "a request submitted after shutdown failed only after %r s" % took, wit(), case)
+            rep.violation("later-request-fails-late" + ("/%s" % kind if kind else ""), "a request submitted after shutdown failed only after %r s" % took + (" (when its host name had been resolved)" if kind else ""), wit(), case)
+    if info.get("resolving"):
+        rep.monitor("resolving_at_shutdown", info["resolving"])
     # ---- the other context ----
     rep.monitor("other_context_unaffected")
     for r in box["other"]:
@@ -463,6 +490,7 @@ def judge(v, res, box, when, rep, case, T):
 # =====================================================================================================
 
 TCP_ACTIVE = 9.5  # shutdown instants are taken from the first ... seconds of the scenario
+TCP_BIG = 40 * 1024  # size of the representation the peer that never reads asks for (8 times; the fabric's socket buffers take 64 KiB)
 TCP_MODES = ["at-once", 0.5, 10.0, "never"]  # what a raw peer does about a Release: hang up after ... seconds
 # Requests to one host are submitted one after the other, so that the client pool opens one connection per host. With
 # TCP_TWIN (every other scenario) the requests to the silent peer are all submitted in one step while no connection to
@@ -488,6 +516,9 @@ def variant_tcp(vseed):
         # every scenario has raw peers of all four kinds; which peer is of which kind rotates with the seed
         "mode_shift": vseed % 4,
         "twin": TCP_TWIN and vseed % 2 == 0,
+        # one scenario out of three: a peer of the victim's server side that asks for a large representation eight times and
+        # never reads: the connection clogs, close() on it cannot complete, the server transport's shutdown stalls
+        "clogged": vseed % 3 == 1,
     }
 
 
@@ -500,6 +531,29 @@ def _task_label(task):
 
     name = task.get_name()
     return re.sub(r"\s+", " ", re.sub(r"0x[0-9a-fA-F]+", "", name.split("<")[0])).strip() or "unnamed"
+
+
+def _ends_summary(fab, rt, ctx_ends, mark_ret):
+    """what became of every connection end of the victim (a function of its own, outside the scenario coroutine)"""
+    ends = []
+    for e in ctx_ends:
+        first = [i for i, ev in enumerate(fab.log) if ev.conn == e.conn and ev.side == e.side and ev.kind in ("established", "accepted")]
+        frames = []
+        for idx, t, data in e.writes:
+            try:
+                fr = [rt.parse_frame(x) for x in rt.split(data)[0]]
+            except rt.Malformed:
+                fr = []
+            frames.append((idx, t, [_frame_name(rt, f) for f in fr] or ["unparsable"]))
+        late_frames = []
+        for idx, t, data in e.late:
+            try:
+                late_frames += [_frame_name(rt, rt.parse_frame(x)) for x in rt.split(data)[0]]
+            except rt.Malformed:
+                late_frames.append("unparsable")
+        ends.append({"repr": repr(e), "side": e.side, "conn": e.conn, "late_frames": late_frames, "close_pending": e.close_pending, "backlog": e.wbuf_size, "made": first[0] if first else None, "t_made": e.t_made, "closing": e.closing, "t_closing": e.t_closing, "frames": frames, "late_writes": len(e.late), "peer": e._extra["peername"][0],
+                     "delivered_after": None if mark_ret is None else sum(1 for ev in fab.log[mark_ret:] if ev.conn == e.conn and ev.side == e.side and ev.kind in ("deliver", "dropped"))})
+    return ends
 
 
 def run_tcp(v, seed, shutdown_at):
@@ -578,7 +632,11 @@ def run_tcp(v, seed, shutdown_at):
             logging.getLogger(name).setLevel(logging.INFO)  # debug records are never formatted by the collector anyway
         obsres = Obs()
         fab.next_server_owner = "ctx"
-        ctx = await aiocoap.Context.create_server_context(site(hlog, {("obs",): obsres}), bind=(VICTIM, None), transports=["tcpserver", "tcpclient"], loggername="coap-victim")
+        class Big(R.Resource):
+            async def render_get(self, request):
+                return aiocoap.Message(payload=b"x" * TCP_BIG)
+
+        ctx = await aiocoap.Context.create_server_context(site(hlog, {("obs",): obsres, ("big",): Big()}), bind=(VICTIM, None), transports=["tcpserver", "tcpclient"], loggername="coap-victim")
         fab.next_server_owner = "other"
         other = await aiocoap.Context.create_server_context(site([]), bind=(OTHER, None), transports=["tcpserver", "tcpclient"], loggername="coap-other")
         fab.next_server_owner = None
@@ -650,6 +708,8 @@ def run_tcp(v, seed, shutdown_at):
         fab.listen("10.1.0.12", 5683, lambda: raw("block", "server", mode_of(1), b_block), "raw")
         fab.listen("10.1.0.13", 5683, lambda: raw("notify", "server", mode_of(2), b_notify), "raw")
         fab.blackhole("10.1.0.15")  # never completes the handshake
+        # host names that create_connection takes a while to resolve (both are the slow responder)
+        fab.slow_names.update({"slow1.example": (1.0, "10.1.0.11"), "slow8.example": (8.0, "10.1.0.11")})
         for k in range(40):
             fab.listen("10.1.0.%d" % (30 + k), 5683, (lambda k=k: raw("fresh-%d" % k, "server", mode_of(k), b_slow, pings=k % 4 == 1)), "raw")
         fab.listen("10.1.0.19", 5683, lambda: raw("echo", "server", "at-once", b_echo), "raw")
@@ -675,6 +735,25 @@ def run_tcp(v, seed, shutdown_at):
                 info["raw_refused"] = info.get("raw_refused", 0) + 1
 
         loop.call_later(0.05, lambda: harness_task(raw_connect("10.1.0.14", mode_of(0), True)))
+
+        # the peer that never reads: it announces that it takes large messages, asks, and leaves its socket alone
+        def clog_made(peer):
+            peer.send(rt.Frame(rt.CSM, b"", ((2, (1 << 20).to_bytes(3, "big")), (4, b"")), b""))
+            for k in range(8):
+                peer.send(rt.Frame(1, bytes([0x40 + k]), ((11, b"big"),), b""))
+            peer.transport.pause_reading()
+
+        def clog_peer():
+            p = simtcp.RawStream(loop, None, clog_made, send_csm=False, name="clogged")
+            p.kind, p.mode, p.released, p.pings = "client", "never", None, False
+            raws.append(p)
+            return p
+
+        async def clog_connect():
+            await fab.connect(clog_peer, VICTIM, 5683, owner="raw", local=("10.1.0.70", 40000))
+
+        if v.get("clogged"):
+            loop.call_later(0.35, lambda: harness_task(clog_connect()))
         # a new peer connects every 0.65 s (so that there are many distinct moments at which a connection is being accepted)
         for k in range(14):
             loop.call_later(0.45 + 0.65 * k, lambda k=k: harness_task(raw_connect("10.1.0.%d" % (80 + k), mode_of(k + 1), False, pings=k % 4 == 0)))
@@ -791,6 +870,14 @@ def run_tcp(v, seed, shutdown_at):
             await asyncio.sleep(TCP_ACTIVE + 0.5)
             info["loop_exc_at_end"] = len(loop.exceptions)
         else:
+            def resolving():
+                info["down"] = False
+                for name, secs in (("slow1.example", 1), ("slow8.example", 8)):
+                    for api in (False, True):
+                        submit("resolving-%s-%ds" % ("blockwise" if api else "raw", secs), "coap+tcp://%s/resolving" % name, blockwise=api)
+
+            if isinstance(shutdown_at, float):
+                loop.call_later(max(0.0, shutdown_at - 0.25), resolving)
             if isinstance(shutdown_at, (list, tuple)):
                 # ["step", conn, side, kind, n, k]: in the k-th loop iteration after the one in which that fabric event happened
                 # (k = 0: the very next one, ahead of everything the event itself has scheduled)
@@ -802,12 +889,14 @@ def run_tcp(v, seed, shutdown_at):
                     await asyncio.sleep(0)
             else:
                 await asyncio.sleep(shutdown_at)
+            if not isinstance(shutdown_at, float):
+                resolving()  # (tied to a step: no saying when that is; the requests are born in the step of the shutdown)
             tms = list(ctx.request_interfaces)
             info["pending"] = {
                 "outgoing": sum(len(getattr(tm, "outgoing_requests", None) or {}) for tm in tms),
                 "incoming": sum(len(getattr(tm, "incoming_requests", None) or {}) for tm in tms),
                 "connecting": sum(1 for c in fab.connects if c["owner"] == "ctx" and c["state"] == "pending"),
-                "connecting_handshake": sum(1 for c in fab.connects if c["owner"] == "ctx" and c["state"] == "pending" and c["dst"][0] != "10.1.0.15"),
+                "connecting_handshake": sum(1 for c in fab.connects if c["owner"] == "ctx" and c["state"] == "pending" and c["dst"][0] != "10.1.0.15" and not c["dst"][0].startswith("slow")),
                 "accepting": sum(1 for e in ctx_ends() if e.side == "s" and e.protocol is None and not e.closing),
                 "client_conns": sum(1 for e in ctx_ends() if e.side == "c" and not e.closing),
                 "server_conns": sum(1 for e in ctx_ends() if e.side == "s" and not e.closing),
@@ -815,6 +904,8 @@ def run_tcp(v, seed, shutdown_at):
                 "blockwise": sum(1 for r in recs if r["name"].startswith("blockwise") and r["done"] is None),
                 "handlers_running": sum(1 for h in hlog if h["ev"] == "enter") - sum(1 for h in hlog if h["ev"] in ("exit", "cancelled")),
                 "observers": obsres.count,
+                "resolving": sum(1 for c in fab.connects if c["owner"] == "ctx" and c["state"] == "pending" and c["dst"][0].startswith("slow")),
+                "clogged_conns": sum(1 for e in ctx_ends() if e.wbuf_size and not e.lost_scheduled),
                 "observing": int(orec["done"] is not None and orec["done"][1] is None and orec["obs_end"] is None),
             }
             info["down"] = True
@@ -833,7 +924,7 @@ def run_tcp(v, seed, shutdown_at):
                 for c in fab.connects:
                     if c["owner"] == "ctx" and (c["state"] == "pending" or (c["state"] == "established" and c["end"].t_made is not None and c["end"].t_made >= loop.time() - 1e-9)):
                         young[c["dst"][0]] = c["t_start"]
-                victim = sorted((r for r in recs if r["done"] is None and r["dst"] in young and r["dst"] != "10.1.0.15" and not r["name"].startswith("justborn")), key=lambda r: -young[r["dst"]])
+                victim = sorted((r for r in recs if r["done"] is None and r["dst"] in young and r["dst"] != "10.1.0.15" and not r["name"].startswith(("justborn", "resolving"))), key=lambda r: -young[r["dst"]])
                 if victim:
                     info["cancelled_in_setup"] = True
             elif v.get("cancel_one"):
@@ -869,7 +960,7 @@ def run_tcp(v, seed, shutdown_at):
             info["open_at_return"] = [repr(e) for e in ctx_ends() if not e.closing]
             # requests submitted after shutdown must fail at once with the shutdown error, wherever they are addressed
             late = []
-            probes = [("pooled", "coap+tcp://10.1.0.11/late", False), ("pooled", "coap+tcp://10.1.0.11/late", True), ("fresh", "coap+tcp://10.1.0.61/late", False), ("fresh", "coap+tcp://10.1.0.63/late", True), ("nohandshake", "coap+tcp://10.1.0.15/late", False), ("nohandshake", "coap+tcp://10.1.0.15/late", True), ("aiocoap-peer", "coap+tcp://%s/r" % OTHER, False)]
+            probes = [("pooled", "coap+tcp://10.1.0.11/late", False), ("pooled", "coap+tcp://10.1.0.11/late", True), ("fresh", "coap+tcp://10.1.0.61/late", False), ("fresh", "coap+tcp://10.1.0.63/late", True), ("nohandshake", "coap+tcp://10.1.0.15/late", False), ("nohandshake", "coap+tcp://10.1.0.15/late", True), ("resolving", "coap+tcp://slow1.example/late", False), ("resolving", "coap+tcp://slow1.example/late", True), ("resolving", "coap+tcp://slow8.example/late", False), ("aiocoap-peer", "coap+tcp://%s/r" % OTHER, False)]
             answered = [r for r in recs if r["resp"] is not None]
             if answered:
                 probes.append(("by-remote", answered[0]["resp"].remote, False))
@@ -916,24 +1007,7 @@ def run_tcp(v, seed, shutdown_at):
             ctask.cancel()
         left = [t for t, parent in tasks if not t.done() and t not in mine and t is not main_task]
         info["tasks_left"] = sorted(_task_label(t) for t in left)
-        ends = []
-        for e in ctx_ends():
-            first = [i for i, ev in enumerate(fab.log) if ev.conn == e.conn and ev.side == e.side and ev.kind in ("established", "accepted")]
-            frames = []
-            for idx, t, data in e.writes:
-                try:
-                    fr = [rt.parse_frame(x) for x in rt.split(data)[0]]
-                except rt.Malformed:
-                    fr = []
-                frames.append((idx, t, [_frame_name(rt, f) for f in fr] or ["unparsable"]))
-            late_frames = []
-            for idx, t, data in e.late:
-                try:
-                    late_frames += [_frame_name(rt, rt.parse_frame(x)) for x in rt.split(data)[0]]
-                except rt.Malformed:
-                    late_frames.append("unparsable")
-            ends.append({"repr": repr(e), "side": e.side, "conn": e.conn, "late_frames": late_frames, "made": first[0] if first else None, "t_made": e.t_made, "closing": e.closing, "t_closing": e.t_closing, "frames": frames, "late_writes": len(e.late), "peer": e._extra["peername"][0],
-                         "delivered_after": None if shutdown_at is None else sum(1 for ev in fab.log[info["mark_ret"] :] if ev.conn == e.conn and ev.side == e.side and ev.kind in ("deliver", "dropped"))})
+        ends = _ends_summary(fab, rt, ctx_ends(), None if shutdown_at is None else info["mark_ret"])
         box.update(fab=fab, recs=recs, other=other_recs, info=info, obs_count=obsres.count, ends=ends, connects=[dict(c, end=None) for c in fab.connects if c["owner"] == "ctx"], raws=[(p.name, p.mode, p.released, p.open) for p in raws])
         if shutdown_at is None:
             await ctx.shutdown()
@@ -997,9 +1071,9 @@ def judge_tcp(v, res, box, when, rep, case, T, base):
         elif isinstance(res.error, TriggerMissed):
             rep.inconc("tcp: the fabric event %s of the baseline did not occur in the run with the shutdown tied to it" % res.error)
         elif res.hang:
-            rep.violation("tcp-shutdown-hangs", "shutdown() (or the work around it) never completed: the event loop ran dry", {"variant": repr(v), "when": when}, case)
+            rep.violation("tcp-shutdown-hangs" + ("/clogged-peer" if v.get("clogged") else ""), "shutdown() (or the work around it) never completed: the event loop ran dry", {"variant": repr(v), "when": when}, case)
         else:
-            rep.violation("tcp-scenario-exception/" + type(res.error).__name__, "an exception escaped from shutdown() or a request API: %r" % res.error, {"variant": repr(v), "when": when, "tb": rep.exception_witness(res.error)}, case)
+            rep.violation("tcp-scenario-exception/" + type(res.error).__name__ + ("/clogged-peer" if v.get("clogged") else ""), "an exception escaped from shutdown() or a request API: %r" % res.error, {"variant": repr(v), "when": when, "tb": rep.exception_witness(res.error)}, case)
         return
     fab, info = box["fab"], box["info"]
     pend = info["pending"]
@@ -1007,7 +1081,7 @@ def judge_tcp(v, res, box, when, rep, case, T, base):
 
     def brief(e):
         d = e.data
-        return (round(e.t, 4), e.kind, e.conn, e.side, e.owner, d.hex() if isinstance(d, bytes) else d)
+        return (round(e.t, 4), e.kind, e.conn, e.side, e.owner, (d[:48].hex() + ("..(%d bytes)" % len(d) if len(d) > 48 else "")) if isinstance(d, bytes) else d)
 
     wit = lambda **kw: dict(
         variant=repr(v), shutdown_at=when, t_call=t_call, t_ret=t_ret, pending=pend, fabric_after_call=[brief(e) for e in fab.log[mark_call:] if e.owner == "ctx"][:40],
@@ -1015,6 +1089,15 @@ def judge_tcp(v, res, box, when, rep, case, T, base):
     )
     ends = box["ends"]
     raised = info.get("shutdown_exc")
+    # a connection of the victim that the peer does not drain: close() was called and cannot complete. It is the documented
+    # behaviour that shutdown() then gives up at the time-out and returns ('Shutdown timeout exceeded'), leaving the task
+    # that waits for that transport behind; everything else the statement demands holds regardless, and what is found
+    # amiss in such a run is keyed with the suffix /clogged-peer
+    stalled = [e["repr"] for e in ends if e["close_pending"]]
+
+    def violation(key, *a):
+        rep.violation(key + ("/clogged-peer" if stalled else ""), *a)
+
     # shutdown() knew the connection and released it (or tried to, when something else had closed it in the same instant)
     released = lambda e: any("Release" in names for idx, t, names in e["frames"]) or "Release" in e["late_frames"]
 
@@ -1037,21 +1120,21 @@ def judge_tcp(v, res, box, when, rep, case, T, base):
     # ---- shutdown completes: it does not raise, returns within the time-out, and what it started has come to an end ----
     rep.monitor("tcp_shutdown_does_not_raise")
     if raised is not None:
-        rep.violation("%s/%s" % (F3, type(raised).__name__), "shutdown() raised %r instead of completing" % raised, wit(tb=rep.exception_witness(raised)), case)
+        violation("%s/%s" % (F3, type(raised).__name__), "shutdown() raised %r instead of completing" % raised, wit(tb=rep.exception_witness(raised)), case)
     rep.monitor("tcp_shutdown_returns")
     if t_ret - t_call > T + 1e-6:
-        rep.violation("tcp-shutdown-exceeds-timeout", "shutdown() took longer than SHUTDOWN_TIMEOUT", wit(took=t_ret - t_call), case)
+        violation("tcp-shutdown-exceeds-timeout", "shutdown() took longer than SHUTDOWN_TIMEOUT", wit(took=t_ret - t_call), case)
     if info["shutdown_tasks"]:
         rep.monitor("tcp_shutdown_tasks_finished")
-        if info["shutdown_tasks_pending"]:
+        if info["shutdown_tasks_pending"] and not stalled:
             survivors = [e["repr"] for e in ends if released(e) and (e["t_closing"] is None or e["t_closing"] > t_ret)]
-            rep.violation(
+            violation(
                 (F2 + "/shutdown-tasks-left-pending") if survivors else "tcp-shutdown-tasks-left-pending/" + info["shutdown_tasks_pending"][0].replace(" ", "-"),
                 "shutdown() has returned (after %.3f s) while tasks it started are still pending: it did not complete, and left something running" % (t_ret - t_call),
                 wit(tasks=info["shutdown_tasks_pending"], connections_open_at_return=survivors[:5]), case)
     left = [x for x in info["tasks_left"] if x not in info["shutdown_tasks_pending"]]
     if left:
-        rep.violation("tcp-tasks-left-at-end/" + left[0].replace(" ", "-"), "200 s after shutdown() returned a task of the library is still pending", wit(tasks=left), case)
+        violation("tcp-tasks-left-at-end/" + left[0].replace(" ", "-"), "200 s after shutdown() returned a task of the library is still pending", wit(tasks=left), case)
     # ---- pending requests / observations ----
     rep.monitor("tcp_pending_requests_failed")
     connects = box["connects"]
@@ -1063,26 +1146,26 @@ def judge_tcp(v, res, box, when, rep, case, T, base):
     for r in box["recs"]:
         kind = r["name"].split("-")[0]
         if r["done"] is None:
-            rep.violation((F1 + "/outstanding-request-still-pending") if in_setup(r) else "tcp-request-still-pending-after-shutdown/%s" % kind, "an outstanding request never terminated although its context was shut down", wit(request=r["name"]), case)
+            violation((F1 + "/outstanding-request-still-pending") if in_setup(r) else "tcp-request-still-pending-after-shutdown/%s" % kind, "an outstanding request never terminated although its context was shut down", wit(request=r["name"]), case)
             break
         t_done, exc = r["done"]
         if r["name"] in info["unfinished_before"]:
             if t_done > t_call + T + 1e-6:
-                rep.violation((F1 + "/outstanding-request-terminated-late") if in_setup(r) else "tcp-request-terminated-late/%s" % kind, "an outstanding request terminated later than the shutdown time-out (%.3f s after shutdown was called, with %r)" % (t_done - t_call, exc), wit(request=r["name"]), case)
+                violation((F1 + "/outstanding-request-terminated-late") if in_setup(r) else "tcp-request-terminated-late/%s" % kind, "an outstanding request terminated later than the shutdown time-out (%.3f s after shutdown was called, with %r)" % (t_done - t_call, exc), wit(request=r["name"]), case)
             if exc is None:
                 if t_done > t_call + 1e-9:
                     rep.count("tcp_completed_during_shutdown")
             elif info.get("cancelled") == r["name"]:
                 pass  # cancelled by the application itself just before shutdown
             elif not isinstance(exc, error.Error):
-                rep.violation("tcp-request-failed-with-non-library-error/%s/%s" % (kind, type(exc).__name__), "an outstanding request was failed with an exception outside the library's error hierarchy at shutdown", wit(exc=repr(exc)), case)
+                violation("tcp-request-failed-with-non-library-error/%s/%s" % (kind, type(exc).__name__), "an outstanding request was failed with an exception outside the library's error hierarchy at shutdown", wit(exc=repr(exc)), case)
         if r["name"] == "observe" and r["done"][1] is None and info.get("cancelled_obs") != "established":
             if r["obs_end"] is None:
-                rep.violation("tcp-observation-not-terminated", "a client-side observation got no terminal signal although its context was shut down", wit(), case)
+                violation("tcp-observation-not-terminated", "a client-side observation got no terminal signal although its context was shut down", wit(), case)
             elif r["obs_end"][0] > t_call + T + 1e-6:
-                rep.violation("tcp-observation-terminated-late", "a client-side observation was terminated later than the shutdown time-out", wit(), case)
+                violation("tcp-observation-terminated-late", "a client-side observation was terminated later than the shutdown time-out", wit(), case)
             elif not (r["obs_end"][1] == "StopAsyncIteration" or isinstance(r["obs_end"][1], error.Error)):
-                rep.violation("tcp-observation-terminated-with-non-library-error/" + type(r["obs_end"][1]).__name__, "a client-side observation ended with an exception outside the library's error hierarchy", wit(), case)
+                violation("tcp-observation-terminated-with-non-library-error/" + type(r["obs_end"][1]).__name__, "a client-side observation ended with an exception outside the library's error hierarchy", wit(), case)
     # ---- handlers cancelled ----
     hl = info["handlers"]
     running = {}
@@ -1099,10 +1182,10 @@ def judge_tcp(v, res, box, when, rep, case, T, base):
             if not ends_ or ends_[0]["ev"] != "cancelled" or ends_[0]["t"] > t_call + T + 1e-6:
                 if ends_ and ends_[0]["ev"] == "exit" and abs(ends_[0]["t"] - t_call) < 1e-9:
                     continue  # finished in the very instant of the shutdown call
-                rep.violation("tcp-handler-not-cancelled", "a server handler that was running when shutdown() was called was not cancelled within the shutdown time-out", wit(handler=repr(h), ends=repr(ends_[:1])), case)
+                violation("tcp-handler-not-cancelled", "a server handler that was running when shutdown() was called was not cancelled within the shutdown time-out", wit(handler=repr(h), ends=repr(ends_[:1])), case)
                 break
     if box["obs_count"] != 0:
-        rep.violation("tcp-server-observation-not-ended", "a server-side observation survived shutdown (observer count %d)" % box["obs_count"], wit(), case)
+        violation("tcp-server-observation-not-ended", "a server-side observation survived shutdown (observer count %d)" % box["obs_count"], wit(), case)
     # ---- nothing is transmitted, no connection opened or accepted after shutdown returned ----
     rep.monitor("tcp_silent_after_shutdown")
     reported = set()
@@ -1112,14 +1195,14 @@ def judge_tcp(v, res, box, when, rep, case, T, base):
             key = "%s/frame-sent/%s" % (family(e), sent[0])
             if key not in reported:
                 reported.add(key)
-                rep.violation(key, "the context wrote to a connection %s after shutdown() had returned" % ("that shutdown() had released" if released(e) else "that shutdown() has not released (set up while or after it ran)"), wit(connection=e["repr"], frames=[(round(t - t_ret, 4), names) for idx, t, names in e["frames"] if idx >= mark_ret][:5]), case)
+                violation(key, "the context wrote to a connection %s after shutdown() had returned" % ("that shutdown() had released" if released(e) else "that shutdown() has not released (set up while or after it ran)"), wit(connection=e["repr"], frames=[(round(t - t_ret, 4), names) for idx, t, names in e["frames"] if idx >= mark_ret][:5]), case)
     rep.monitor("tcp_no_connect_after_shutdown")
     opened = [c for c in connects if c["log"] >= mark_ret]
     if opened:
-        rep.violation(F1 + "/connection-opened", "the context started to open a connection after shutdown() had returned", wit(connects=[(round(c["t_start"] - t_ret, 4), c["dst"], c["state"]) for c in opened][:5]), case)
+        violation(F1 + "/connection-opened", "the context started to open a connection after shutdown() had returned", wit(connects=[(round(c["t_start"] - t_ret, 4), c["dst"], c["state"]) for c in opened][:5]), case)
     accepted = [ev for ev in fab.log[mark_ret:] if ev.kind == "accepted" and ev.owner == "ctx"]
     if accepted:
-        rep.violation("tcp-connection-accepted-after-shutdown", "the context accepted a connection after shutdown() had returned", wit(events=[brief(ev) for ev in accepted[:3]]), case)
+        violation("tcp-connection-accepted-after-shutdown", "the context accepted a connection after shutdown() had returned", wit(events=[brief(ev) for ev in accepted[:3]]), case)
     # ---- nothing is left open ----
     if ends:
         rep.monitor("tcp_connections_closed", len(ends))
@@ -1130,7 +1213,7 @@ def judge_tcp(v, res, box, when, rep, case, T, base):
             key = family(e) + ("/never-closed" if released(e) else "/connection-never-closed")
             if key not in reported:
                 reported.add(key)
-                rep.violation(key, "200 s after shutdown() returned a connection of the context is still open (%s)" % ("Release was sent, the peer did not hang up, nobody closed it" if released(e) else "shutdown() did not release it: it was set up while or after shutdown ran"), wit(connection=e["repr"], frames=[names for idx, t, names in e["frames"]][-4:]), case)
+                violation(key, "200 s after shutdown() returned a connection of the context is still open (%s)" % ("Release was sent, the peer did not hang up, nobody closed it" if released(e) else "shutdown() did not release it: it was set up while or after shutdown ran"), wit(connection=e["repr"], frames=[names for idx, t, names in e["frames"]][-4:]), case)
     # ---- nothing raises in the loop ----
     rep.monitor("tcp_no_loop_exception")
     reported = set()
@@ -1145,11 +1228,11 @@ def judge_tcp(v, res, box, when, rep, case, T, base):
             key = "tcp-loop-exception/" + str(x.get("exc_type"))
         if key not in reported:
             reported.add(key)
-            rep.violation(key, "a callback of the context raised in the event loop %s shutdown" % ("after" if x["vtime"] >= t_ret - 1e-9 else "during" if x["vtime"] >= t_call - 1e-9 else "before"), wit(loop=x, connection=fatal[0] if fatal else None), case)
+            violation(key, "a callback of the context raised in the event loop %s shutdown" % ("after" if x["vtime"] >= t_ret - 1e-9 else "during" if x["vtime"] >= t_call - 1e-9 else "before"), wit(loop=x, connection=fatal[0] if fatal else None), case)
     if res.unraisable:
-        rep.violation("tcp-unraisable-after-shutdown", "an exception was raised in a finalizer", wit(unraisable=res.unraisable[:2]), case)
+        violation("tcp-unraisable-after-shutdown", "an exception was raised in a finalizer", wit(unraisable=res.unraisable[:2]), case)
     if res.logging_failures:
-        rep.violation("tcp-logging-call-failed", "a logging call inside the library raised", wit(failures=res.logging_failures[:2]), case)
+        violation("tcp-logging-call-failed", "a logging call inside the library raised", wit(failures=res.logging_failures[:2]), case)
     # ---- later requests fail at once with the shutdown error ----
     rep.monitor("tcp_later_request_fails_fast", len(info["late"]))
     reported = set()
@@ -1168,16 +1251,16 @@ def judge_tcp(v, res, box, when, rep, case, T, base):
             continue
         if key not in reported:
             reported.add(key)
-            rep.violation(key, what, wit(probe={k: repr(x) for k, x in q.items()}), case)
+            violation(key, what, wit(probe={k: repr(x) for k, x in q.items()}), case)
     # ---- the other context: its own exchange goes exactly as in the run without shutdown ----
     rep.monitor("tcp_other_context_unaffected")
     for r, b in zip(box["other"], base):
         same = r["k"] == b["k"] and abs(r["t"] - b["t"]) < 1e-9 and r["done"] is not None and r["done"][1] is None and r["done"][2] == b"other-ok" and abs(r["done"][0] - b["done"][0]) < 1e-9
         if not same:
-            rep.violation("tcp-other-context-affected", "an exchange of a second context in the same process did not go as it does without the shutdown", wit(other=repr(r), baseline=repr(b)), case)
+            violation("tcp-other-context-affected", "an exchange of a second context in the same process did not go as it does without the shutdown", wit(other=repr(r), baseline=repr(b)), case)
             break
     if len(box["other"]) != len(base):
-        rep.violation("tcp-other-context-affected", "a second context in the same process made another number of exchanges than without the shutdown", wit(), case)
+        violation("tcp-other-context-affected", "a second context in the same process made another number of exchanges than without the shutdown", wit(), case)
     # ---- how much of the new dimensions this case had ----
     if pend["connecting_handshake"]:
         rep.monitor("tcp_handshake_in_flight_at_shutdown")
@@ -1195,6 +1278,12 @@ def judge_tcp(v, res, box, when, rep, case, T, base):
     if any(e["side"] == "s" and e["made"] is not None and e["made"] >= mark_call for e in ends):
         # the server took a connection from the backlog (created its protocol object) after shutdown() had been called
         rep.monitor("tcp_accept_during_shutdown")
+    if pend["resolving"]:
+        rep.monitor("tcp_resolving_at_shutdown", pend["resolving"])
+    if stalled:
+        rep.monitor("tcp_shutdown_stalled_by_clogged_peer")
+    if pend["clogged_conns"]:
+        rep.monitor("tcp_clogged_connection_at_shutdown")
     if when[1].startswith("step"):
         rep.monitor("tcp_shutdown_tied_to_connection_event")
     if info.get("cancelled_in_setup"):
